@@ -7,6 +7,7 @@ pub fn run(id: &str, tier: &str, seed: u64) -> Result<String, String> {
         "bgzf-deflate-bound" => bgzf_deflate_bound(tier, seed),
         n if n.starts_with("try-") => codec_try(&n[4..]),
         "cram-codecs-roundtrip" => cram_codecs_roundtrip(tier, seed, None),
+        "bcf-roundtrip" => bcf_roundtrip(tier),
         "cram-decoders-hostile" => cram_decoders_hostile(tier, seed),
         n if n.starts_with("file-") && n.contains(':') => { let (t, h) = n[5..].split_once(':').unwrap(); let x: Vec<u8> = (0..h.len() / 2).map(|i| u8::from_str_radix(&h[2 * i..2 * i + 2], 16).unwrap()).collect(); let ts = crate::hostile::targets(); let t = ts.iter().find(|k| k.name == t).ok_or("unknown target")?; (t.run)(&x); Ok("\"ran\":1".into()) }
         "file-mutations" => crate::hostile::parent(tier, None),
@@ -264,4 +265,89 @@ pub fn run_children(names: &[&str], prefix: &str, tier: &str, label: &str) -> Re
     }
     if fails.is_empty() { Ok(format!("\"cases\":{cases},\"inputs_requesting_1_to_5_GiB_at_once\":{big_requests}")) }
     else { Err(format!("FAILURES\n{}", fails.iter().map(|(k, (ds, d, h))| format!("{label}: {k} on arbitrary bytes; reached through {}; shortest such input found: {d} {} bytes {}", ds.iter().cloned().collect::<Vec<_>>().join(","), h.len() / 2, if h.len() > 1600 { format!("{}...", &h[..1600]) } else { h.clone() })).collect::<Vec<_>>().join("\n"))) }
+}
+
+// ---------------------------------------------------------------------------------------------------------------------
+// C10 BOUNDED-NATIVE stand-in for what no contract reaches (vectors, per-sample matrices, genotypes, string-map indices):
+// VCF text -> RecordBuf -> bcf::io::Writer -> bcf::io::Reader -> RecordBuf -> VCF text must be the identity on a
+// systematically enumerated family of records built from the property's own boundary values; a writer refusal (Err) is
+// fine, a different record or a reader error on the writer's output is a failure.  Never counted as proved.
+fn bcf_roundtrip(tier: &str) -> Result<String, String> {
+    use noodles_vcf as vcf;
+    use vcf::variant::io::Write as _;
+    use std::collections::BTreeMap;
+    let mut hdr = String::from("##fileformat=VCFv4.3\n##INFO=<ID=I1,Number=1,Type=Integer,Description=\"x\">\n##INFO=<ID=IA,Number=.,Type=Integer,Description=\"x\">\n##INFO=<ID=F1,Number=1,Type=Float,Description=\"x\">\n##INFO=<ID=FA,Number=.,Type=Float,Description=\"x\">\n##INFO=<ID=S1,Number=1,Type=String,Description=\"x\">\n##INFO=<ID=FL,Number=0,Type=Flag,Description=\"x\">\n##FILTER=<ID=PASS,Description=\"All filters passed\">\n");
+    for i in 0..300 { hdr.push_str(&format!("##FILTER=<ID=q{i},Description=\"x\">\n")); }
+    hdr.push_str("##FORMAT=<ID=GT,Number=1,Type=String,Description=\"x\">\n##FORMAT=<ID=XI,Number=1,Type=Integer,Description=\"x\">\n##FORMAT=<ID=XA,Number=.,Type=Integer,Description=\"x\">\n##FORMAT=<ID=XF,Number=.,Type=Float,Description=\"x\">\n##FORMAT=<ID=XS,Number=1,Type=String,Description=\"x\">\n##contig=<ID=sq0,length=100000>\n#CHROM\tPOS\tID\tREF\tALT\tQUAL\tFILTER\tINFO\tFORMAT\ts0\ts1\ts2\n");
+    let ints: Vec<i64> = vec![-2147483641, -2147483640, -2147483639, -32769, -32768, -32761, -32760, -32759, -129, -128, -127, -121, -120, -119, -1, 0, 1, 126, 127, 128, 32766, 32767, 32768, 2147483646, 2147483647];
+    let mut lines: Vec<(String, String)> = Vec::new();   // (kind, record line)
+    let alt = (0..130).map(|i| if i % 2 == 0 { "C".repeat(1 + i / 2) } else { "G".repeat(1 + i / 2) }).collect::<Vec<_>>().join(",");
+    let rec = |filter: &str, info: &str, fmt: &str, s: [&str; 3]| format!("sq0\t10\t.\tA\t{alt}\t.\t{filter}\t{info}\t{fmt}\t{}\t{}\t{}\n", s[0], s[1], s[2]);
+    for &a in &ints { lines.push(("info-int".into(), rec(".", &format!("I1={a}"), "XI", ["1", "2", "3"]))); }
+    for &a in &ints { for &b in &ints { if tier == "thorough" || (a + b) % 3 == 0 { lines.push(("info-int-array".into(), rec(".", &format!("IA={a},.,{b}"), "XI", ["1", "2", "3"]))); } } }
+    for &a in &ints { for &b in &[-120i64, 0, 127, 32767] { lines.push(("format-int".into(), rec(".", ".", "XI", [&a.to_string(), ".", &b.to_string()]))); } }
+    for &a in &ints { lines.push(("format-int-array".into(), rec(".", ".", "XA", [&format!("{a},1,2"), "4", "."]))); lines.push(("format-int-array".into(), rec(".", ".", "XA", [".", &format!("1,{a}"), "5,6,7,.,8"]))); }
+    for &a in &ints { lines.push(("format-int-array".into(), rec(".", ".", "XA", [&format!(".,{a}"), "1", &format!(".,.,{a},.")]))); lines.push(("info-int-array".into(), rec(".", &format!("IA=.,{a}"), "XI", ["1", "2", "3"]))); }
+    for f in ["0.5", "-1e-3", "1e30", ".", "0"] { lines.push(("float".into(), rec(".", &format!("FA=.,{f}"), "XF", [&format!(".,{f}"), ".,.", "1"]))); lines.push(("float".into(), rec(".", &format!("F1={f};FA={f},.,1.5"), "XF", [&format!("{f},1"), "2.5", "."]))); }
+    let alleles = [".", "0", "1", "2", "61", "62"];   // 62 is the largest allele index an Int8 genotype can carry: (62 + 1) << 1 | 1 == 127
+    let mut gts: Vec<String> = vec![".".into()];
+    for a in alleles { gts.push(a.into()); for b in alleles { for ph in ["/", "|"] { gts.push(format!("{a}{ph}{b}")); } } }
+    for a in ["0", "62", "."] { for b in ["1", "."] { for c in ["2", "61"] { gts.push(format!("{a}/{b}|{c}")); gts.push(format!("{a}|{b}|{c}/0")); } } }
+    for (i, g) in gts.iter().enumerate() { let h = &gts[(i * 7 + 3) % gts.len()]; let k = &gts[(i * 13 + 5) % gts.len()]; lines.push(("genotype".into(), rec(".", ".", "GT", [g, h, k]))); if tier == "thorough" { let (x, y, z) = (format!("{k}:1"), format!("{g}:2"), format!("{h}:.")); lines.push(("genotype".into(), rec(".", ".", "GT:XI", [&x, &y, &z]))); } }
+    // alleles the encoding cannot carry: the writer must refuse them (or carry them) — never write something else
+    for a in ["63", "64", "126", "127", "128"] { for g in [format!("{a}"), format!("0/{a}"), format!("{a}|1"), format!("1|{a}/0")] { lines.push(("genotype-large-allele".into(), rec(".", ".", "GT", [&g, "0/1", "."]))); } }
+    let fidx = [0usize, 1, 2, 125, 126, 127, 128, 129, 254, 255, 256, 257, 299];
+    for &i in &fidx { lines.push(("filter".into(), rec(&format!("q{i}"), ".", "XI", ["1", "2", "3"]))); for &j in &fidx { if i != j { lines.push(("filter".into(), rec(&format!("q{i};q{j}"), ".", "XI", ["1", "2", "3"]))); } } }
+    for n in [1usize, 2, 13, 14, 15, 16, 17, 126, 127, 128, 129, 254, 255, 256, 257, 300] { let t = "x".repeat(n); lines.push(("string".into(), rec(".", &format!("S1={t}"), "XS", [&t, ".", "y"]))); }
+    let mut rd = vcf::io::Reader::new(hdr.as_bytes());
+    let header = rd.read_header().map_err(|e| format!("vcf header: {e:?}"))?;
+    let render = |h: &vcf::Header, r: &vcf::variant::RecordBuf| -> Result<String, String> { let mut w = vcf::io::Writer::new(Vec::new()); w.write_variant_record(h, r).map_err(|e| format!("render: {e}"))?; Ok(String::from_utf8_lossy(w.get_ref()).to_string()) };
+    let mut fails: BTreeMap<(String, String), String> = BTreeMap::new();
+    let (mut cases, mut refused) = (0u64, 0u64);
+    let mut per_kind: BTreeMap<String, (u64, u64)> = BTreeMap::new();   // kind -> (round-tripped, refused by the writer)
+    std::panic::set_hook(Box::new(|_| {}));
+    for (kind, line) in &lines {
+        let mut rd = vcf::io::Reader::new(line.as_bytes());
+        let mut orig = vcf::variant::RecordBuf::default();
+        match rd.read_record_buf(&header, &mut orig) { Ok(n) if n > 0 => {}, _ => continue }   // not a VCF record the text reader accepts
+        cases += 1;
+        let short = { let f: Vec<&str> = line.trim_end().split('\t').collect(); format!("FILTER={} INFO={} FORMAT={} {}", f[6], if f[7].len() > 40 { &f[7][..40] } else { f[7] }, f[8], f[9..].iter().map(|x| if x.len() > 24 { &x[..24] } else { x }).collect::<Vec<_>>().join(" ")) };
+        let mut note = |what: String| { fails.entry((kind.clone(), what.split(':').next().unwrap_or("").to_string())).or_insert_with(|| format!("bcf round trip [{kind}]: {what}; first such record: {short}")); };
+        let r = std::panic::catch_unwind(std::panic::AssertUnwindSafe(|| -> Result<Option<String>, String> {
+            let mut w = noodles_bcf::io::Writer::from(Vec::new());
+            w.write_header(&header).map_err(|e| format!("write_header fails: {e}"))?;
+            if w.write_variant_record(&header, &orig).is_err() { return Ok(None); }
+            let data = w.get_ref().clone();
+            let mut rd = noodles_bcf::io::Reader::from(&data[..]);
+            let h2 = rd.read_header().map_err(|e| format!("reader rejects the written header: {e}"))?;
+            let mut back = vcf::variant::RecordBuf::default();
+            match rd.read_record_buf(&h2, &mut back) { Ok(n) if n > 0 => {}, Ok(_) => return Err("reader finds no record in the writer's output".into()), Err(_) => return Err("reader rejects the writer's output".into()) }
+            // compared as values (RecordBuf: PartialEq), not through the VCF text writer; the text is only used to show a difference
+            // a sample given as "." is an EMPTY value list for the VCF text reader and a list of missing values for the BCF reader:
+            // the same content (all missing) — both are padded with None to the number of keys before comparing
+            let norm = |r: &vcf::variant::RecordBuf| -> vcf::variant::RecordBuf {
+                let mut r = r.clone();
+                let keys = r.samples().keys().clone();
+                let n = keys.as_ref().len();
+                let vals: Vec<Vec<Option<vcf::variant::record_buf::samples::sample::Value>>> = r.samples().values().map(|s| { let mut v = s.values().to_vec(); v.resize(n, None); v }).collect();
+                *r.samples_mut() = vcf::variant::record_buf::Samples::new(keys, vals);
+                r
+            };
+            if norm(&orig) != norm(&back) {
+                let (a, b) = (render(&header, &orig).unwrap_or_default(), render(&h2, &back).unwrap_or_default());
+                let (fa, fb): (Vec<&str>, Vec<&str>) = (a.trim_end().split('\t').collect(), b.trim_end().split('\t').collect());
+                let d: Vec<String> = (0..fa.len().max(fb.len())).filter(|&i| fa.get(i) != fb.get(i)).map(|i| format!("col {}: {:?} -> {:?}", i + 1, fa.get(i).map(|x| if x.len() > 40 { &x[..40] } else { x }), fb.get(i).map(|x| if x.len() > 40 { &x[..40] } else { x }))).collect();
+                let dbg = if d.is_empty() { format!("samples {:?} -> {:?}", orig.samples(), back.samples()).chars().take(300).collect::<String>() } else { d.join(", ") };
+                return Err(format!("reads back a different record: ({dbg})"));
+            }
+            let a = String::new();
+            Ok(Some(a))
+        }));
+        match r { Err(_) => note("PANICS".into()), Ok(Err(e)) => note(e), Ok(Ok(None)) => { refused += 1; *per_kind.entry(kind.clone()).or_insert((0u64, 0u64)) = { let e = per_kind.get(kind).copied().unwrap_or((0, 0)); (e.0, e.1 + 1) }; }, Ok(Ok(Some(_))) => { let e = per_kind.get(kind).copied().unwrap_or((0, 0)); per_kind.insert(kind.clone(), (e.0 + 1, e.1)); } }
+    }
+    let _ = std::panic::take_hook();
+    // vacuity guard: every kind must have records that actually went through the writer and the reader
+    for (k, (okc, _)) in &per_kind { if *okc == 0 && k != "genotype-large-allele" { return Err(format!("UNDECIDED: no record of kind {k} was accepted by the writer — the harness would be vacuous")); } }
+    if fails.is_empty() { Ok(format!("\"cases\":{cases},\"refused_by_writer\":{refused},\"round_tripped_per_kind\":{{{}}}", per_kind.iter().map(|(k, (a, b))| format!("\"{k}\":[{a},{b}]")).collect::<Vec<_>>().join(","))) }
+    else { Err(format!("FAILURES\n{}", fails.values().cloned().collect::<Vec<_>>().join("\n"))) }
 }
